@@ -28,7 +28,25 @@ def q(v, U, exact, floor=False):
 
 
 def project(force, nodes, labels, opts, U, lattice):
-    """Observation after force.compute(): public attributes only."""
+    """Observation after force.compute(): public attributes only.  Lattice instances are projected exactly in quarter units; if
+    the code left a value that is not on the lattice (positions are normally integers), the projection falls back to units of
+    1/200 (rounded) for small layouts, else to the float projection (C01/C03 only)."""
+    if not lattice:
+        return _project(force, nodes, labels, opts, U, False, False)
+    try:
+        return _project(force, nodes, labels, opts, U, True, True)
+    except ValueError:
+        big = max([abs(n.currentPos) for n in nodes] + [0])
+        if len(nodes) <= 30 and big <= 1500:
+            rec = _project(force, nodes, labels, opts, 200, True, False)
+            rec["offlattice"] = 1
+            return rec
+        rec = _project(force, nodes, labels, opts, 1000, False, False)
+        rec["offlattice"] = 1
+        return rec
+
+
+def _project(force, nodes, labels, opts, U, lattice, exact):
     ident = {}
     items = []
     chainlen = []
@@ -50,11 +68,11 @@ def project(force, nodes, labels, opts, U, lattice):
             target = parent.currentPos if parent is not None else (n.idealPos if d == 0 else obj.idealPos)
             it = {
                 "k": kind, "id": lid,
-                "t": q(target, U, lattice),
-                "w": q(obj.width, U, lattice, floor=True),
-                "p": q(obj.currentPos, U, True),
+                "t": q(target, U, exact),
+                "w": q(obj.width, U, exact, floor=not lattice),
+                "p": q(obj.currentPos, U, exact),
                 "li": int(obj.layerIndex),
-                "ideal": q(obj.idealPos, U, lattice),
+                "ideal": q(obj.idealPos, U, exact),
                 "dataok": 1 if obj.data is n.data else 0,
                 "parentlayer": (int(parent.layerIndex) + 1) if parent is not None else 0,
                 "childlayer": 0,
@@ -98,16 +116,16 @@ def project(force, nodes, labels, opts, U, lattice):
     rec = {
         "U": U, "lattice": 1 if lattice else 0, "order": hasrep,
         "opts": {
-            "ns": q(o["nodeSpacing"], U, lattice, floor=True),
+            "ns": q(o["nodeSpacing"], U, exact, floor=not lattice),
             "hasMin": 0 if o.get("minPos") is None else 1,
-            "minPos": 0 if o.get("minPos") is None else q(o["minPos"], U, lattice),
+            "minPos": 0 if o.get("minPos") is None else q(o["minPos"], U, exact),
             "hasMax": 0 if o.get("maxPos") is None else 1,
-            "maxPos": 0 if o.get("maxPos") is None else q(o["maxPos"], U, lattice),
+            "maxPos": 0 if o.get("maxPos") is None else q(o["maxPos"], U, exact),
             "densN": dens.numerator, "densD": dens.denominator,
-            "stubW": q(o["stubWidth"], U, lattice, floor=True),
+            "stubW": q(o["stubWidth"], U, exact, floor=not lattice),
             "alg": o["algorithm"],
         },
-        "labels": [{"id": i + 1, "ideal": q(a, U, lattice), "w": q(w, U, lattice, floor=True)}
+        "labels": [{"id": i + 1, "ideal": q(a, U, exact), "w": q(w, U, exact, floor=not lattice)}
                    for i, (a, w) in enumerate(labels)],
         "layers": out_layers,
         "chainlen": chainlen,
@@ -125,6 +143,8 @@ def run_instance(inst, U, lattice):
         f.compute()
     except RecursionError:
         return {"error": "RecursionError", "n": len(labels)}
+    except Exception as ex:       # the layout must be computed for every input of the quantifier
+        return {"error": type(ex).__name__, "n": len(labels), "instance": {"labels": [list(x) for x in labels], "opts": inst["opts"]}}
     rec = project(f, nodes, labels, inst["opts"], U, lattice)
     rec["fresh"] = 1
     return rec
@@ -158,6 +178,8 @@ def run_relayout(rng):
             f.compute()
     except RecursionError:
         return {"error": "RecursionError", "n": len(labels)}
+    except Exception as ex:
+        return {"error": type(ex).__name__, "n": len(labels), "instance": {"labels": [list(x) for x in labels], "opts": first, "relayout": True}}
     rec = project(f, nodes, labels, None, 4, True)
     rec["fresh"] = 0
     return rec
@@ -184,19 +206,22 @@ def run_direct(rng):
         eff = {"nodeSpacing": 3, "minPos": 0, "maxPos": None}
         eff.update(partial)
         items = []
+        UU = 4
+        if any((Fraction(nd.currentPos) * 4).denominator != 1 for nd in nodes):
+            UU = 200          # the code left positions off the lattice: project them to 1/200 (rounded)
         for i, nd in enumerate(nodes):
-            items.append({"k": "L", "id": i + 1, "t": q(nd.idealPos, 4, True), "w": q(nd.width, 4, True), "p": q(nd.currentPos, 4, True),
-                          "li": 0, "ideal": q(nd.idealPos, 4, True), "dataok": 1, "parentlayer": 0, "childlayer": 0})
+            items.append({"k": "L", "id": i + 1, "t": q(nd.idealPos, UU, True), "w": q(nd.width, UU, True), "p": q(nd.currentPos, UU, False),
+                          "li": 0, "ideal": q(nd.idealPos, UU, True), "dataok": 1, "parentlayer": 0, "childlayer": 0})
         order = {id(nd): j for j, nd in enumerate(lst)}
         items.sort(key=lambda it: order[id(nodes[it["id"] - 1])])
         items.sort(key=lambda it: it["t"])
-        recs.append({"U": 4, "lattice": 1, "order": 1, "fresh": 0,
-                     "opts": {"ns": q(eff["nodeSpacing"], 4, True), "hasMin": 0 if eff["minPos"] is None else 1,
-                              "minPos": 0 if eff["minPos"] is None else q(eff["minPos"], 4, True),
+        recs.append({"U": UU, "lattice": 1, "order": 1, "fresh": 0,
+                     "opts": {"ns": q(eff["nodeSpacing"], UU, True), "hasMin": 0 if eff["minPos"] is None else 1,
+                              "minPos": 0 if eff["minPos"] is None else q(eff["minPos"], UU, True),
                               "hasMax": 0 if eff["maxPos"] is None else 1,
-                              "maxPos": 0 if eff["maxPos"] is None else q(eff["maxPos"], 4, True),
-                              "densN": 1, "densD": 1, "stubW": 4, "alg": "none"},
-                     "labels": [{"id": i + 1, "ideal": q(a, 4, True), "w": q(w, 4, True)} for i, (a, w) in enumerate(labels)],
+                              "maxPos": 0 if eff["maxPos"] is None else q(eff["maxPos"], UU, True),
+                              "densN": 1, "densD": 1, "stubW": UU, "alg": "none"},
+                     "labels": [{"id": i + 1, "ideal": q(a, UU, True), "w": q(w, UU, True)} for i, (a, w) in enumerate(labels)],
                      "layers": [items], "chainlen": [0] * n, "hasrep": 0, "rep": [], "foreign": 0})
     return recs
 
